@@ -791,6 +791,60 @@ func testdataFiles() [][]byte {
 	return out
 }
 
+// emitReuse: a game re-based at ply k (TPS tag + the remaining moves) on the SAME PTN value that was queried before, or
+// replaced by an unrelated game of another size
+func emitReuse(c *Ctx) {
+	r := c.R
+	mk := func() (size int, ps []*tak.Position, ms []tak.Move) {
+		size = 3 + r.Intn(4)
+		cur := tak.New(tak.Config{Size: size})
+		ps = append(ps, cur)
+		for n := 2 + r.Intn(14); n > 0; n-- {
+			if o, _ := cur.GameOver(); o {
+				break
+			}
+			l := legalMoves(cur)
+			if len(l) == 0 {
+				break
+			}
+			m := l[r.Intn(len(l))]
+			nx, err := cur.Move(m)
+			if err != nil {
+				break
+			}
+			cur, ps, ms = nx, append(ps, nx), append(ms, m)
+		}
+		return
+	}
+	file := func(size int, tps string, ms []tak.Move) *ptn.PTN {
+		p := &ptn.PTN{Tags: []ptn.Tag{{Name: "Size", Value: strconv.Itoa(size)}}}
+		if tps != "" {
+			p.Tags = append(p.Tags, ptn.Tag{Name: "TPS", Value: tps})
+		}
+		for _, m := range ms {
+			p.Ops = append(p.Ops, &ptn.Move{Move: m})
+		}
+		return p
+	}
+	size, ps, ms := mk()
+	A := file(size, "", ms)
+	var B *ptn.PTN
+	kind := "rebase"
+	if r.Chance(1, 4) {
+		s2, _, ms2 := mk()
+		B = file(s2, "", ms2)
+		kind = "other-game"
+	} else {
+		k := r.Intn(len(ps))
+		B = file(size, ptn.FormatTPS(ps[k]), ms[k:])
+	}
+	for _, n := range []int{0, 1 + r.Intn(6)} {
+		col := []string{"W", "B", "N"}[r.Intn(3)]
+		c.Emit(fmt.Sprintf("ptnreuse %d %d %s %s %s || %s", r.Intn(2), n, col, tpsRes(B), fmtPTN(A), fmtPTN(B)))
+	}
+	c.Count("reuse." + kind)
+}
+
 func genC12(c *Ctx) {
 	emitBoundary(c) // every clause of the render/parse safety predicate, from both sides (gen_ptn_bound.go)
 	n := c.Scale(2000, 100000) // thorough: 200k plain games took 37 min wall on a loaded 16-core box; 100k with the puzzle games stays under 30
@@ -804,6 +858,9 @@ func genC12(c *Ctx) {
 		}
 		if k%12 == 0 {
 			emitGame(c, earliestEndGame(c))
+		}
+		if k%8 == 0 {
+			emitReuse(c)
 		}
 		if k%16 == 0 {
 			// AddMoves on a fresh PTN
